@@ -405,7 +405,7 @@ func (cl *cluster) key() string {
 		pa = append(pa, fmt.Sprintf("n%d:done=%v", i, t.done))
 	}
 	sort.Strings(pa)
-	fmt.Fprintf(&b, "B %v sticky=%v task=%s adds=%v\n", bl, cl.stickyREST, cl.taskDesc(), pa)
+	fmt.Fprintf(&b, "B %v sticky=%v task=%s adds=%v xferfail=%v/%d\n", bl, cl.stickyREST, cl.taskDesc(), pa, cl.failXfer, cl.cnt["transfers_failed"])
 	var ack []string
 	for id := 1; id <= cl.nWrites; id++ {
 		ack = append(ack, fmt.Sprintf("%v@%d", cl.acked[id], blockOf(id)))
@@ -663,6 +663,10 @@ func (cl *cluster) enabled() []string {
 		case "SrcUp":
 			if cl.down[0] {
 				out = append(out, "SrcUp")
+			}
+		case "XferFail":
+			if cl.task != nil && !cl.task.done && cl.task.kind == "rebuild" && !cl.failXfer && faultsLeft(1) && cl.cnt["transfers_failed"] == 0 {
+				out = append(out, "XferFail")
 			}
 		case "Kill":
 			if cl.task != nil && !cl.task.done && (c.MaxRestarts == 0 || cl.nRestart < c.MaxRestarts) {
